@@ -116,7 +116,10 @@ def _eq_item(item1, item2):
         return item2 is None
     if item2 is None:
         return False
-    return item1 == item2
+    try:
+        return item1 == item2
+    except TypeError:
+        return False  # not comparable -> considered not equal
 
 
 def _eq_dict(dict1, dict2):
